@@ -41,35 +41,136 @@ theorem datasetOffsets_le (nsets sizeAll bytes o : Nat) (ho : o ∈ datasetOffse
   calc i * (sizeAll * bytes) + sizeAll * bytes = (i + 1) * (sizeAll * bytes) := by rw [Nat.succ_mul]
     _ ≤ nsets * (sizeAll * bytes) := Nat.mul_le_mul_right _ hi
 
-/-- an Interfile file with `nsets` data sets (not NM): shorter than announced → error -/
-theorem truncated_container_rejected (nsets sizeAll bytes fileLen : Nat) (h : fileLen < nsets * (sizeAll * bytes)) :
-    readDatasets false (datasetOffsets nsets sizeAll bytes) sizeAll bytes fileLen = .error () := by
+/-! #### the offsets `read_interfile_dynamic_image` uses (frames without a parsed offset follow the previous one) -/
+
+theorem followAux_eq (fb : Nat) : ∀ (l : List Nat) (k : Nat),
+    (∀ i (h : i < l.length), l[i] = 0 ∨ l[i] = (k + 1 + i) * fb) →
+    followAux fb (k * fb) l = (List.range' (k + 1) l.length).map (· * fb) := by
+  intro l
+  induction l with
+  | nil => intro k _; rfl
+  | cons o r ih =>
+    intro k h
+    have ho : (if o = 0 then k * fb + fb else o) = (k + 1) * fb := by
+      have h0 := h 0 (by simp)
+      simp only [List.getElem_cons_zero, Nat.add_zero] at h0
+      by_cases hz : o = 0
+      · simp [hz, Nat.succ_mul]
+      · rcases h0 with h0 | h0
+        · exact absurd h0 hz
+        · rw [if_neg hz, h0]
+    have hr : ∀ i (hi : i < r.length), r[i] = 0 ∨ r[i] = (k + 1 + 1 + i) * fb := by
+      intro i hi
+      have := h (i + 1) (by simpa using hi)
+      simp only [List.getElem_cons_succ] at this
+      rcases this with h1 | h1
+      · exact Or.inl h1
+      · right; rw [h1]; congr 1; omega
+    simp only [followAux, ho, List.length_cons, List.range'_succ, List.map_cons]
+    rw [ih (k + 1) hr]
+
+/-- a list of `n` parsed offsets whose `i`-th entry is either missing (0) or the running sum `i·frameBytes` is
+    completed to the running sums -/
+theorem dynamicOffsets_eq (fb : Nat) (l : List Nat)
+    (h : ∀ i (hi : i < l.length), l[i] = 0 ∨ l[i] = i * fb) :
+    dynamicOffsets fb l = (List.range l.length).map (· * fb) := by
+  cases l with
+  | nil => rfl
+  | cons o r =>
+    have h0 : o = 0 := by
+      have := h 0 (by simp)
+      simpa using this
+    subst h0
+    have hr : ∀ i (hi : i < r.length), r[i] = 0 ∨ r[i] = (0 + 1 + i) * fb := by
+      intro i hi
+      have := h (i + 1) (by simpa using hi)
+      simp only [List.getElem_cons_succ] at this
+      rcases this with h1 | h1
+      · exact Or.inl h1
+      · right; rw [h1]; congr 1; omega
+    have := followAux_eq fb r 0 hr
+    simp only [Nat.zero_mul] at this
+    simp only [dynamicOffsets, this, List.length_cons, List.range_eq_range', List.range'_succ, List.map_cons, Nat.zero_mul,
+      Nat.zero_add]
+
+/-- the dynamic reader seeks to the announced offsets, whether or not the offset keys were parsed (NM) -/
+theorem usedOffsets_dynamic (nm : Bool) (nsets sizeAll bytes : Nat) :
+    usedOffsets true nm (datasetOffsets nsets sizeAll bytes) sizeAll bytes = datasetOffsets nsets sizeAll bytes := by
+  simp only [usedOffsets, if_true]
+  have hlen : (parsedOffsets nm (datasetOffsets nsets sizeAll bytes)).length = nsets := by
+    cases nm <;> simp [parsedOffsets, datasetOffsets]
+  rw [dynamicOffsets_eq, hlen]
+  · rfl
+  · intro i hi
+    cases nm
+    · right; simp [parsedOffsets, datasetOffsets]
+    · left; simp [parsedOffsets]
+
+theorem usedOffsets_notNM (dyn : Bool) (nsets sizeAll bytes : Nat) :
+    usedOffsets dyn false (datasetOffsets nsets sizeAll bytes) sizeAll bytes = datasetOffsets nsets sizeAll bytes := by
+  cases dyn
+  · simp [usedOffsets, parsedOffsets]
+  · exact usedOffsets_dynamic false nsets sizeAll bytes
+
+theorem readAll_datasetOffsets_short (nsets sizeAll bytes fileLen : Nat) (h : fileLen < nsets * (sizeAll * bytes)) :
+    readAll sizeAll bytes fileLen (datasetOffsets nsets sizeAll bytes) = .error () := by
   have hn : 0 < nsets := by
     rcases Nat.eq_zero_or_pos nsets with h0 | hp
     · subst h0; simp at h
     · exact hp
-  simp only [readDatasets, parsedOffsets, Bool.false_eq_true, if_false]
   apply readAll_error_of_mem _ _ _ _ ((nsets - 1) * (sizeAll * bytes)) (mem_datasetOffsets _ _ _ _ (by omega))
   have : (nsets - 1) * (sizeAll * bytes) + sizeAll * bytes = nsets * (sizeAll * bytes) := by
     have h1 : nsets = (nsets - 1) + 1 := by omega
     conv_rhs => rw [h1, Nat.succ_mul]
   omega
 
-theorem complete_container_accepted (nsets sizeAll bytes fileLen : Nat) (h : nsets * (sizeAll * bytes) ≤ fileLen) :
-    readDatasets false (datasetOffsets nsets sizeAll bytes) sizeAll bytes fileLen = .ok () := by
-  simp only [readDatasets, parsedOffsets, Bool.false_eq_true, if_false]
+/-- an Interfile file with `nsets` data sets, dynamic (any modality) or parametric (not NM): shorter than announced → error -/
+theorem truncated_container_rejected (dyn nm : Bool) (hd : dyn = true ∨ nm = false) (nsets sizeAll bytes fileLen : Nat)
+    (h : fileLen < nsets * (sizeAll * bytes)) :
+    readDatasets dyn nm (datasetOffsets nsets sizeAll bytes) sizeAll bytes fileLen = .error () := by
+  have hu : usedOffsets dyn nm (datasetOffsets nsets sizeAll bytes) sizeAll bytes = datasetOffsets nsets sizeAll bytes := by
+    rcases hd with rfl | rfl
+    · exact usedOffsets_dynamic nm _ _ _
+    · exact usedOffsets_notNM dyn _ _ _
+  simp only [readDatasets, hu]
+  exact readAll_datasetOffsets_short _ _ _ _ h
+
+theorem complete_container_accepted (dyn nm : Bool) (hd : dyn = true ∨ nm = false) (nsets sizeAll bytes fileLen : Nat)
+    (h : nsets * (sizeAll * bytes) ≤ fileLen) :
+    readDatasets dyn nm (datasetOffsets nsets sizeAll bytes) sizeAll bytes fileLen = .ok () := by
+  have hu : usedOffsets dyn nm (datasetOffsets nsets sizeAll bytes) sizeAll bytes = datasetOffsets nsets sizeAll bytes := by
+    rcases hd with rfl | rfl
+    · exact usedOffsets_dynamic nm _ _ _
+    · exact usedOffsets_notNM dyn _ _ _
+  simp only [readDatasets, hu]
   exact readAll_ok_of_forall _ _ _ _ fun o ho => Nat.le_trans (datasetOffsets_le _ _ _ o ho) h
 
-/-- for any announced offsets (not NM): a file that ends before the end of one of the data sets is rejected -/
+/-- parametric image, any announced offsets (not NM): a file that ends before the end of one of the data sets is rejected -/
 theorem truncated_dataset_rejected (offsets : List Nat) (o : Nat) (ho : o ∈ offsets) (sizeAll bytes fileLen : Nat)
-    (h : fileLen < o + sizeAll * bytes) : readDatasets false offsets sizeAll bytes fileLen = .error () := by
-  simp only [readDatasets, parsedOffsets, Bool.false_eq_true, if_false]
+    (h : fileLen < o + sizeAll * bytes) : readDatasets false false offsets sizeAll bytes fileLen = .error () := by
+  simp only [readDatasets, usedOffsets, parsedOffsets, Bool.false_eq_true, if_false]
   exact readAll_error_of_mem _ _ _ _ o ho h
 
-/-- NM: every data set is read from offset 0, so a file that holds one data set is accepted whatever was announced -/
-theorem nm_container_accepted_when_one_dataset_fits (offsets : List Nat) (sizeAll bytes fileLen : Nat)
-    (h : sizeAll * bytes ≤ fileLen) : readDatasets true offsets sizeAll bytes fileLen = .ok () := by
-  simp only [readDatasets, parsedOffsets, if_true]
+/-- parametric image, NM: every data set is read from offset 0, so a file that holds one data set is accepted whatever
+    was announced -/
+theorem nm_parametric_accepted_when_one_dataset_fits (offsets : List Nat) (sizeAll bytes fileLen : Nat)
+    (h : sizeAll * bytes ≤ fileLen) : readDatasets false true offsets sizeAll bytes fileLen = .ok () := by
+  simp only [readDatasets, usedOffsets, parsedOffsets, Bool.false_eq_true, if_false, if_true]
+  apply readAll_ok_of_forall
+  intro o ho
+  simp only [List.mem_map] at ho
+  obtain ⟨_, _, rfl⟩ := ho
+  simpa using h
+
+/-! #### regression witness: `read_interfile_dynamic_image` before repo commit 0e66b8adc -/
+
+/-- the old dynamic reader used the parsed offsets as they were (like the parametric reader still does) -/
+def readDynamicOld (nm : Bool) (offsets : List Nat) (sizeAll bytes fileLen : Nat) : Except Unit Unit :=
+  readAll sizeAll bytes fileLen (parsedOffsets nm offsets)
+
+theorem old_dynamic_nm_accepted (offsets : List Nat) (sizeAll bytes fileLen : Nat) (h : sizeAll * bytes ≤ fileLen) :
+    readDynamicOld true offsets sizeAll bytes fileLen = .ok () := by
+  simp only [readDynamicOld, parsedOffsets, if_true]
   apply readAll_ok_of_forall
   intro o ho
   simp only [List.mem_map] at ho
